@@ -332,6 +332,7 @@ package frame
 //@   ensures  rows-kept: forall(k, 0, len(f.data), forall(r, 0, f.len, ColMem[g.data[k].ptr][g.off + r] == old(ColMem[f.data[k].ptr][f.off + r])))
 //@   ensures  old-storage-untouched: forall(k, 0, len(f.data), ColMem[f.data[k].ptr] == old(ColMem[f.data[k].ptr]))
 //@   ensures  same-types: forall(k, 0, len(f.data), g.data[k].typ.Type == f.data[k].typ.Type)
+//@   ensures  same-or-fresh-columns: (g.data == f.data && g.off == f.off) || forall(k, 0, len(g.data), colStamp(g.data[k].ptr) > old(colClock))
 //@   ensures  existing-storage-untouched: forall(c, implies(colStamp(Ref(c)) <= old(colClock), ColMem[Ref(c)] == old(ColMem[Ref(c)])))
 //@   ensures  same-or-fresh-columns: (g.data == f.data && g.off == f.off) || forall(k, 0, len(g.data), colStamp(g.data[k].ptr) > old(colClock))
 //@   modifies ColMem, colClock
@@ -378,4 +379,5 @@ package frame
 //@   ensures  length: result.len == ite(dst.data == nil, 0, dst.len) + src.len && wf(result)
 //@   ensures  appended: forall(k, 0, len(result.data), forall(r, 0, src.len, ColMem[result.data[k].ptr][result.off + ite(dst.data == nil, 0, dst.len) + r] == old(ColMem[src.data[k].ptr][src.off + r])))
 //@   ensures  prefix-kept: implies(dst.data != nil, forall(k, 0, len(dst.data), forall(r, 0, dst.len, ColMem[result.data[k].ptr][result.off + r] == old(ColMem[dst.data[k].ptr][dst.off + r]))))
+//@   ensures  never-the-source-columns: ite(dst.data == nil, forall(k, 0, len(result.data), colStamp(result.data[k].ptr) > old(colClock)), (result.data == dst.data && result.off == dst.off) || forall(k, 0, len(result.data), colStamp(result.data[k].ptr) > old(colClock)))
 //@   modifies ColMem, colClock
